@@ -390,7 +390,8 @@ class Emitter:
 
         # ---- closures: ghost header (return name + ensures); an expression body is wrapped in
         # ghost braces (stripped again by the faithfulness check)
-        if opts.get("closures"):
+        rec.unannotated_closures = 0
+        if True:
             cl = []
             k = body_lo
             while k < end:
@@ -402,7 +403,8 @@ class Emitter:
                         q += 1
                     cl.append((k, q)); k = q + 1; continue
                 k += 1
-            for n, lines in opts["closures"].items():
+            rec.unannotated_closures = max(0, len(cl) - len(opts.get("closures") or {}))
+            for n, lines in (opts.get("closures") or {}).items():
                 if n < 1 or n > len(cl):
                     rec.lost_hints.append("closure %d header (found %d closures)" % (n, len(cl))); continue
                 k, q = cl[n - 1]
